@@ -183,15 +183,30 @@ impl serde::Serialize for Value {
     }
 }
 
+/// Exact comparison of an integer with a double, in OrderedFloat's order: NaN is greater than
+/// everything else.
+fn cmp_int_float(i: i64, f: f64) -> Ordering {
+    const TWO_63: f64 = 9223372036854775808.0;
+    if f.is_nan() || f >= TWO_63 {
+        Ordering::Less
+    } else if f < -TWO_63 {
+        Ordering::Greater
+    } else {
+        // -2^63 <= f < 2^63: the integral part of f is exactly an i64
+        let t = f.trunc();
+        i.cmp(&(t as i64))
+            .then_with(|| 0.0.partial_cmp(&(f - t)).unwrap_or(Ordering::Equal))
+    }
+}
+
 impl Ord for Value {
     fn cmp(&self, other: &Self) -> Ordering {
         match (self, other) {
-            // Ints and floats are converted to floats
-            (Value::Int(int_val), Value::Float(float_val)) => {
-                (OrderedFloat::from(*int_val as f64)).cmp(float_val)
-            }
+            // Ints and floats are compared exactly (converting the integer to a double rounds
+            // beyond 2^53, and then none of <, ==, > would hold).
+            (Value::Int(int_val), Value::Float(float_val)) => cmp_int_float(*int_val, float_val.0),
             (Value::Float(float_val), Value::Int(int_val)) => {
-                float_val.cmp(&OrderedFloat::from(*int_val as f64))
+                cmp_int_float(*int_val, float_val.0).reverse()
             }
             (Value::Float(l), Value::Float(r)) => l.cmp(r),
             (Value::Int(l), Value::Int(r)) => l.cmp(r),
